@@ -614,6 +614,10 @@ impl IQLEngine {
             }
         }
 
+        // Reject recursion through negation: it has no stratified model, whichever mix of
+        // persistent, session and inline rules the program text was assembled from
+        rule_catalog::validate_rules_stratification(&program.rules)?;
+
         // Recursion detection
         self.has_recursion = recursion::has_recursion(&program);
 
